@@ -3,7 +3,7 @@ import importlib
 from pyvc.spec import SpecRegistry
 from . import common
 
-MODULES = ["leaf_station", "simstate", "statemachine"]
+MODULES = ["leaf_station", "simstate", "statemachine", "servicing"]
 
 
 def build(world, ex):
